@@ -99,6 +99,14 @@ func main() {
 		atts = parse(hx.ReadLines(o.Replay))
 	} else {
 		atts = parse(hx.ReadLines(o.Corpus + "/attempts.ops"))
+		// names that are patterns of one another for a LIKE comparison: each must be bound to its own store
+		for _, u := range []string{"axb", "a_b", "a%b", "a%", "%", "_x_", "axb@other.org", "a_b@other.org", "%@other.org"} {
+			via := "plain"
+			if tokenSafe(u) {
+				via = rng.Pick([]string{"plain", "login"})
+			}
+			atts = append(atts, attempt{via, u, "pw", 200})
+		}
 		n := 400
 		if o.Thorough {
 			n = 12000
